@@ -1,6 +1,6 @@
 """C04 — dispatch is round-robin over available workers only; 512 independent availability bits."""
 from common import Stream
-from props.srvlib import COMMON_META, gen_scripts, make_stream, c04_pred, avail_cases
+from props.srvlib import COMMON_META, gen_scripts, make_stream, bld_stream, c04_pred, avail_cases
 
 META = dict(COMMON_META)
 META.update({
@@ -34,4 +34,4 @@ def streams(ctx):
     s2 = make_stream("srv", cases, c04_pred,
                      "%d generated fault-free scripts (W in 1..4); dispatch log compared and checked for round-robin / no dispatch to a full worker" % n,
                      lambda c, m: "D" in m)
-    return [s1, s2]
+    return [s1, s2, bld_stream(ctx, ("C04",), ["", "", "c"], 64, 1500, ws=(2, 3, 4), ls=(1, 2, 3))]
